@@ -24,7 +24,7 @@ O: independent primality knowledge in plain Python: a sieve below 2^22, explicit
 # gap found: every multiword modulus had random words. Not reached: moduli whose words are all ones / all zeros (the largest prime
 # below and the smallest prime above 2^(64k), k = 2..8, 2^(64k)-1, 2^(64k)+1, the Mersenne / curve primes), where the carry chains and the
 # final conditional subtraction of the Montgomery product run at their extremes (at 512 bits the pre-subtraction value overflows
-# 8 words). Added: boundary_cases (about 70 requests, both tiers, first in the stream). Nothing else was missing.
+# 8 words). Added: boundary_cases (88 requests, both tiers, first in the stream). Nothing else was missing.
 import math
 from vlib.pipeline import Case
 from vlib import gen
